@@ -212,4 +212,20 @@ func init() {
 		WantProbes:  []string{"fec-converged", "fec-recovered", "targeted-drop", "non-original-output-under-wrong-ratio", "fec-recovery-under-wrong-ratio"},
 		nontrivial:  func(r *proto.RunResult, nf int) bool { return r.Progress && nf > 0 },
 	}
+	plans["C12"] = &propPlan{
+		Level: "exploration",
+		Items: []planItem{
+			{Scenario: "core-wrap", Stratum: "", Quick: 1500, Thorough: 60000, PerJob: 16},
+			{Scenario: "xfer", Stratum: "wrap", Quick: 400, Thorough: 12000, PerJob: 8},
+			{Scenario: "fec-stream", Stratum: "wrap", Quick: 800, Thorough: 30000, PerJob: 32},
+		},
+		QuickBudget: 60 * time.Second, ThoroughBudget: 25 * time.Minute,
+		Rule: "evaluations = seeded simulated runs. 'core-wrap' (metamorphic): every run executes the same configuration, workload, fates and relative times twice in one bubble - baseline (sn 0, core clock 0) and shifted (first sn X and Y per direction, clock offset C ms; drawn so that 2^32 or 2^31 falls before, at the first, inside or at the last segment/millisecond, or uniformly at random) - and compares the complete normalised datagram traces (every segment's cmd, frg, wnd, ts-C, sn-X, una-Y, len, payload hash; emission times) and the delivered data event by event; Mode K is exactly deterministic, so any difference is a violation. 'xfer/wrap': full sessions whose cores, core clock and FEC encoders start just before their wrap points, decided by the stream and wire oracles. 'fec-stream/wrap': the codec stream oracle with starting ids around the wrap value and 2^31. Non-trivial = payload was delivered and (a fault fired or a boundary was crossed); distinct = distinct event-log hashes",
+		Real: append([]string{"raw cores under both drivers (core-wrap)"}, realSession...), Stub: stubSession,
+		Assumptions: append([]string{"sn and ts of WASK/WINS segments are not compared: they carry no sequence number or timestamp of their own (the fields hold what the previously encoded segment left there and receivers ignore them)", "the clock shift is a whole number of milliseconds so that both passes truncate at the same sub-millisecond phase"}, assumeCommon...),
+		WantProbes: []string{"sn-boundary-crossed", "clock-boundary-crossed", "fec-id-wrap-crossed", "fec-id-wrapped"},
+		nontrivial: func(r *proto.RunResult, nf int) bool {
+			return r.Progress && (nf > 0 || r.Probes["sn-boundary-crossed"]+r.Probes["clock-boundary-crossed"]+r.Probes["fec-id-wrap-crossed"]+r.Probes["fec-id-wrapped"] > 0)
+		},
+	}
 }
